@@ -10,6 +10,18 @@ def c15_nontrivial(c, i):
     return any(t in ("hold", "collapse") for t in i)
 
 
+def _k8s_items(c):
+    """kinds of the items of a c15.k8s case: list of 'T' | 'A' | 'N' | 'S'"""
+    kinds, j = [], 6
+    n = int(c[5])
+    for _ in range(n):
+        if c[j] == "T":
+            kinds.append("T"); j += 2
+        else:
+            kinds.append(c[j + 3]); j += 6
+    return kinds
+
+
 def c15_classify(c, i):
     out = ["cmd=" + c[0]]
     end = _end(i)
@@ -22,19 +34,31 @@ def c15_classify(c, i):
     if c[0] == "c15.join":
         out.append("negate=" + c[1])
         out.append("max=" + ("0" if c[2] == "0" else "small" if int(c[2]) < 8 else c[2]))
+    elif c[0] == "c15.k8s":
+        out.append("k8s:max=" + c[2] + ("/cut" if c[3] == "1" and c[2] != "0" else ""))
+        out.append("k8s:split=" + ("default" if c[1] == "1000000" else "forced"))
+        kinds = _k8s_items(c)
+        for k, label in (("T", "time-out"), ("A", "log-absent"), ("N", "log-not-string")):
+            if k in kinds:
+                out.append("k8s:" + label)
+    elif c[0] == "c15.pipe":
+        out.append("pipe:procs=" + c[1])
+        out.append("pipe:streams=" + c[6])
+        if i and i[0].isdigit():
+            # instances that took part / time-outs delivered (calls are `<inst> T <tag> R …` | `<inst> E <id> R …`)
+            insts, tmo, j = set(), 0, 1
+            toks = i
+            for j in range(1, len(toks) - 2):
+                if toks[j + 2] == "R" and toks[j].isdigit() and toks[j - 1].isdigit() and toks[j] != "R":
+                    pass
+            idx = [k for k in range(2, len(toks)) if toks[k] == "R" and toks[k - 2] in ("T", "E")]
+            for k in idx:
+                insts.add(toks[k - 3])
+                if toks[k - 2] == "T":
+                    tmo += 1
+            out.append("pipe:instances-used=" + str(len(insts)))
+            out.append("pipe:time-outs=" + ("0" if tmo == 0 else "1-5" if tmo < 6 else "6+"))
     return out
-
-
-def _k8s_items(c):
-    """kinds of the items of a c15.k8s case: list of 'T' | 'A' | 'N' | 'S'"""
-    kinds, j = [], 6
-    n = int(c[5])
-    for _ in range(n):
-        if c[j] == "T":
-            kinds.append("T"); j += 2
-        else:
-            kinds.append(c[j + 3]); j += 6
-    return kinds
 
 
 def sig_k8s_abandon(c, i, m, rec):
